@@ -47,6 +47,13 @@ CHECKS = {
             "must raise the documented Status* class (StatusError for absent/unknown codes) and never yield an object; Version other than 2.0 must "
             "give an exception or None.",
             TRUST, "3/C06"),
+    "C07": ("exploration", "generated policy/declaration/identity workload + independent reference of the release semantics over the returned XML",
+            "Drives Server.create_authn_response and create_attribute_response over policy shapes (default/per-SP, name-only and regex "
+            "restrictions, four entity-category modules, fail_on_missing_requested) x SP declarations (required/optional, value constraints, "
+            "unsatisfiable) x category layouts x identity shapes; the returned XML is read with the stdlib and every released (attribute, value) "
+            "must be in the identity, inside the applicable restrictions/patterns, inside the entity-category entitlement (RELEASE tables read as "
+            "data) and inside the SP's declaration where that applies - in every outcome.",
+            PURE, "3/C07"),
     "C11": ("exploration", "hostile-document workload over introspected entry points with audit-hook, parser-construction and tool-log monitors",
             "Feeds a catalogue of hostile documents (internal/external/parameter entities, billion laughs, external DTD, XInclude, stylesheet PI, "
             "UTF-16/BOM, truncations, non-XML) to every *_from_string of every schema module, the generic constructors, the SOAP/pack readers, the "
